@@ -125,4 +125,32 @@ theorem wind_step_shape (s : Wind.WStep) :
   rw [this, List.getLast?_append]
   simp
 
+
+/-! ### lateral boundary files -/
+
+/-- the records tile the file: four headers, four boundary definitions, then per step the time record and the
+(species, edge) records in order -/
+theorem boundary_tiles (f : Boundary.BFile) :
+    parseRecords (Boundary.encode f).length (Boundary.encode f) = some (Boundary.records f) :=
+  parse_encode (Boundary.records f) _ (Nat.le_refl _)
+
+/-- the number of records is 8 + steps · (1 + 4 · species) when every step carries four edges per species -/
+theorem boundary_counts (f : Boundary.BFile) (nspec : Nat) (hh : f.headers.length = 4) (hd : f.defs.length = 4)
+    (h : ∀ s ∈ f.steps, s.recs.length = 4 * nspec) :
+    (Boundary.records f).length = 8 + f.steps.length * (1 + 4 * nspec) := by
+  simp only [Boundary.records, List.length_append, hh, hd]
+  have key : ∀ (k : Nat) (l : List Boundary.BStep), (∀ s ∈ l, s.recs.length + 1 = k) →
+      ((l.map (fun s => s.hdr :: s.recs)).flatten).length = l.length * k := by
+    intro k l
+    induction l with
+    | nil => intro _; simp
+    | cons a as ih =>
+      intro hl
+      simp only [List.map_cons, List.flatten_cons, List.length_append, List.length_cons,
+        ih (fun x hx => hl x (by simp [hx]))]
+      have := hl a (by simp)
+      rw [Nat.succ_mul]
+      omega
+  rw [key (1 + 4 * nspec) f.steps (fun s hs => by have := h s hs; omega)]
+
 end Props.C09
